@@ -4,6 +4,8 @@ import (
 	"go/ast"
 	"reflect"
 	"strings"
+
+	"verif/checker/eng"
 )
 
 // noInnerXMLTargets (C19.47): encoding/xml fills a field tagged `,innerxml`
@@ -50,6 +52,75 @@ func noInnerXMLTargets(c *cx, id string) int {
 				return true
 			})
 		}
+	}
+	return n
+}
+
+// reencodedTokensDropDeclarations (C19.53): a decoder that writes the tokens
+// it reads to an encoder of its own (to keep the content of an element as
+// text) gets every namespace twice from encoding/xml: in the names and as
+// xmlns / xmlns:p attributes. The encoder declares the ones of the names
+// again, so a loop that passes the attributes on grows the text by one
+// declaration per element on every decode (F137: bookmark extensions). Such a
+// function tests attribute names against "xmlns" in both positions (the
+// unprefixed declaration: Name.Local; the prefixed ones: Name.Space) and
+// stores the filtered list.
+//
+// Returns the number of re-encoding functions examined.
+func reencodedTokensDropDeclarations(c *cx, id string, in func(*eng.Fn) bool) int {
+	n := 0
+	for _, f := range c.allFns() {
+		if !in(f) || f.Body == nil {
+			continue
+		}
+		if len(f.Calls("encoding/xml.NewEncoder")) == 0 || len(f.Calls("encoding/xml.Encoder.EncodeToken")) == 0 {
+			continue
+		}
+		reads := len(f.Calls("encoding/xml.Decoder.Token")) + len(f.Calls("encoding/xml.TokenReader.Token"))
+		if reads == 0 {
+			continue
+		}
+		n++
+		local, space, store := false, false, false
+		ast.Inspect(f.Body, func(nd ast.Node) bool {
+			switch x := nd.(type) {
+			case *ast.BinaryExpr:
+				if x.Op.String() != "==" && x.Op.String() != "!=" {
+					return true
+				}
+				for _, pr := range [][2]ast.Expr{{x.X, x.Y}, {x.Y, x.X}} {
+					if s, ok := f.ConstStr(pr[1]); ok && s == "xmlns" {
+						if sel, ok := ast.Unparen(pr[0]).(*ast.SelectorExpr); ok {
+							if in, ok := ast.Unparen(sel.X).(*ast.SelectorExpr); ok && in.Sel.Name == "Name" {
+								switch sel.Sel.Name {
+								case "Local":
+									local = true
+								case "Space":
+									space = true
+								}
+							}
+						}
+					}
+				}
+			case *ast.AssignStmt:
+				for _, l := range x.Lhs {
+					if sel, ok := ast.Unparen(l).(*ast.SelectorExpr); ok && sel.Sel.Name == "Attr" {
+						store = true
+					}
+				}
+			}
+			return true
+		})
+		why := ""
+		switch {
+		case !local:
+			why = "no attribute is tested for the name xmlns: the declaration the decoder reports is written next to the one the encoder adds"
+		case !space:
+			why = "no attribute is tested for the xmlns prefix: prefixed declarations are written as attributes of a namespace called xmlns, one more on every decode"
+		case !store:
+			why = "the filtered attribute list is not stored back into the start element"
+		}
+		c.r.Check(id, f, "namespace declarations of re-encoded tokens", "K: a function that copies decoder tokens to its own encoder drops xmlns and xmlns:p attributes (the encoder declares the namespaces of the names itself)", f.Body.Pos(), why == "", why)
 	}
 	return n
 }
